@@ -200,6 +200,50 @@ def gen_allocs(scn, rng, depth):
     return hist
 
 
+def gen_defer(scn, rng):
+    """Focused L2 histories on event order: instances placed, then a burst of
+    changes reaches the master together (several of them about ONE instance or
+    ONE server: priority change then delete, delete then re-create, presence lost
+    then server state change ...) and is delivered in a shuffled order of the
+    watched paths; a cycle follows."""
+    napps = rng.randrange(2, len(scn['apps']) + 1)
+    apps = list(scn['apps'][:napps])
+    hist = [('CreateApp', [a, rng.randrange(len(scn['aprofiles'])) + 1]) for a in apps]
+    hist.append(('Cycle', []))
+    servers = sorted(s for s, k in scn['server_init'].items() if k)
+    up = set(servers)
+    for _ in range(rng.randrange(1, 4)):
+        hist.append(('Defer', []))
+        a = rng.choice(apps) if apps else None
+        s = rng.choice(servers)
+        for _ in range(rng.randrange(2, 5)):
+            r = rng.random()
+            if r < 0.3 and a in apps:
+                hist.append(('SetPrio', [a, rng.choice([0, 1, 50, 100])]))
+            elif r < 0.5 and a in apps:
+                hist.append(('DeleteApp', [a]))
+                apps.remove(a)
+            elif r < 0.6 and a is not None and a not in apps:
+                hist.append(('CreateApp', [a, rng.randrange(len(scn['aprofiles'])) + 1]))
+                apps.append(a)
+            elif r < 0.7 and s in up:
+                hist.append(('NodeDown', [s]))
+                up.discard(s)
+            elif r < 0.78 and s not in up:
+                hist.append(('NodeUp', [s, rng.randrange(len(scn['sprofiles'])) + 1]))
+                up.add(s)
+            elif r < 0.86:
+                hist.append(('ServerState', [s, rng.choice(['frozen', 'up', 'down']), []]))
+            elif r < 0.93:
+                hist.append(('SetAllocs', [rng.randrange(len(scn['allocsets'])) + 1]))
+            else:
+                hist.append(('Tick', [rng.choice([1, 3])]))
+        hist.append(('Deliver', []))
+        hist.append(('Cycle', []))
+    hist.append(('Restart', []))
+    return hist
+
+
 def gen_servers(scn, rng, depth):
     """Focused L2 histories on the server life cycle: instances placed, then a
     small alphabet of server events - presence lost / re-registered with another
